@@ -7,6 +7,7 @@ import GrpcModel.Model.EpShard
     cs <child id> <state> <picker 0|1> <r>
     reserr <r> | exitidle <r> | close
     pick <k> | wrappick <start> <k>
+    pickold <g> <k>        k picks on the g-th most recently superseded picker (0 = the previous one)
 
   answers:  `calls=… err=… push=<agg>;<c1@e3:R+,…>;<c1,nil,err…>;<next>`  /  `picks=c1,c2,…` -/
 namespace GrpcModel.Driver.S_epshard
@@ -35,6 +36,7 @@ def parseOp (fs : List String) : Option Op :=
   | ["close"] => some .close
   | ["pick", k] => do pure (.pick (← k.toNat?))
   | ["wrappick", st, k] => do pure (.wrappick (← st.toNat?) (← k.toNat?))
+  | ["pickold", g, k] => do pure (.pickold (← g.toNat?) (← k.toNat?))
   | _ => none
 
 def showCall : Call → String
@@ -121,6 +123,8 @@ structure DSt where
   started : Bool := false
   implLast : Option Pushed := none
   implWindow : List Del := []
+  /-- superseded pickers as the IMPLEMENTATION pushed them, with the picks made on each since -/
+  implOlds : List (Pushed × List Del × Nat) := []
   /-- value of `next` when the current window of picks started -/
   winStart : Nat := 0
 
@@ -136,16 +140,19 @@ def monitorPush (impl : String) : Option Pushed × String :=
         (some p, s!"VIOL aggregate state {p.agg.letter} is not the precedence-rule state {(prec (p.childStates.map (·.state))).letter}")
       else if !(p.pickers.isPerm (expectedPickers p.childStates p.agg)) then
         (some p, "VIOL picker does not hold exactly the children in the aggregate state")
-      else if !(pushOk p) then (some p, "VIOL start index out of range")
+      -- (where the rotation starts is not part of the property: a start index the model does not predict shows up as a
+      --  model/implementation difference, and fairness is judged on the picks themselves)
       else (some p, "ok")
 
-def monitorPick (d : DSt) (nextBefore : Nat) (k : Nat) (impl : String) (fresh : Bool) : List Del × String :=
-  match d.implLast, field impl "picks" with
-  | some p, some f =>
+/-- C35 on the answer to a run of picks on picker `p` (as the implementation pushed it) whose earlier
+    consecutive picks are `prev`; returns the new window -/
+def monitorPicks (p : Pushed) (prev : List Del) (nextBefore : Nat) (k : Nat) (impl : String) (fresh : Bool) : List Del × String :=
+  match field impl "picks" with
+  | some f =>
     match (commaList f).mapM (parseDel p.childStates) with
     | none => ([], "VIOL unparsable picks")
     | some ds =>
-      let w := if fresh then ds else d.implWindow ++ ds
+      let w := if fresh then ds else prev ++ ds
       if ds.length ≠ k then (w, "VIOL wrong number of picks")
       else match ds.find? (fun x => !(delegateOk p x)) with
       | some x => (w, s!"VIOL delegated to {showDel x} which is not a child in the aggregate state")
@@ -153,7 +160,12 @@ def monitorPick (d : DSt) (nextBefore : Nat) (k : Nat) (impl : String) (fresh : 
         if windowFair p ds && windowFair p w then (w, "ok")
         else if nextBefore + w.length ≥ 4294967296 then (w, "VIOL round robin share is not floor/ceil of k/n across the uint32 index wrap")
         else (w, "VIOL round robin share is not floor/ceil of k/n")
-  | _, _ => ([], "-")
+  | none => ([], "-")
+
+def monitorPick (d : DSt) (nextBefore : Nat) (k : Nat) (impl : String) (fresh : Bool) : List Del × String :=
+  match d.implLast with
+  | some p => monitorPicks p d.implWindow nextBefore k impl fresh
+  | none => ([], "-")
 
 def step (d : DSt) (fs : List String) (impl : String) : DSt × String × String :=
   match fs with
@@ -168,6 +180,7 @@ def step (d : DSt) (fs : List String) (impl : String) : DSt × String × String 
       -- a `cs` naming a child that was never built is rejected by the harness
       let known := match op with
         | .cs id _ _ _ => (d.s.endpoints ++ d.s.gone).any (·.id = id)
+        | .pickold g _ => decide (g < d.s.olds.length)
         | _ => true
       if !known then (d, "bad-op", "-") else
       let implP := parsePushed impl
@@ -181,10 +194,21 @@ def step (d : DSt) (fs : List String) (impl : String) : DSt × String × String 
       | .wrappick st k =>
         let (w, v) := monitorPick d st k impl true
         ({ d with s := s', implWindow := w, winStart := st % 4294967296 }, mo, v)
+      | .pickold g k =>
+        -- k consecutive picks on a superseded picker: its own rotation, whatever was picked elsewhere in between
+        match d.implOlds[g]? with
+        | none => ({ d with s := s' }, mo, "-")
+        | some (p, prev, start) =>
+          let (w, v) := monitorPicks p prev start k impl false
+          ({ d with s := s', implOlds := d.implOlds.set g (p, w, start) }, mo, v)
       | _ =>
         let (p, v) := monitorPush impl
         match p with
-        | some p => ({ d with s := s', implLast := some p, implWindow := [], winStart := p.next.toNat }, mo, v)
+        | some p =>
+          let olds := match d.implLast with
+            | some q => (q, d.implWindow, d.winStart) :: d.implOlds
+            | none => d.implOlds
+          ({ d with s := s', implLast := some p, implWindow := [], winStart := p.next.toNat, implOlds := olds }, mo, v)
         | none => ({ d with s := s' }, mo, v)
 
 def run : IO Unit := Driver.run ({} : DSt) step
